@@ -907,7 +907,7 @@ func (mc *machine) drawOp(rt *rapid.T) Op {
 }
 
 func runC08(ctx *Ctx) {
-	n := ctx.N(250, 6000)
+	n := ctx.N(700, 8000)
 	for _, t := range ctx.types() {
 		t := t
 		if t.Desc.Fields().Len() == 0 {
